@@ -529,6 +529,21 @@ FinishOrder(S, arg) ==
         i == CHOOSE j \in DOMAIN S1.mt.active : S1.mt.active[j] = o IN
     ScanOrders([S1 EXCEPT !.mt.util = @ - WoCap(d), !.mt.active = RemoveAt(@, i), !.mt.finish = @ + 1], 1)
 
+(* set_upstream during the run: a holding device that is waiting restarts its waiting time; the  *)
+(* old upstreams forget it; every new upstream appends it to its downstream list and, being told *)
+(* about the new possibility, retries a pending hand-over                                         *)
+Rewire(S, d, new) ==
+    LET S1 == IF Kind(d) \in Holding /\ S.dev[d].wsince # None THEN [S EXCEPT !.dev[d].wsince = S.now] ELSE S
+        S2 == [S1 EXCEPT !.down = [u \in Devs |-> IF u \in Range(S.ups[d])
+                                                   THEN SelectSeq(S1.down[u], LAMBDA x : x # d) ELSE S1.down[u]],
+                         !.ups[d] = new] IN
+    LET RECURSIVE go(_, _)
+        go(T, i) == IF i > Len(new) THEN T
+                    ELSE LET u == new[i] IN
+                         IF d \in Range(T.down[u]) THEN go(T, i + 1)
+                         ELSE go(SpaceAvail([T EXCEPT !.down[u] = Append(@, d)], u, 0), i + 1)
+    IN go(S2, 1)
+
 Script(S, c) ==
     CASE c.call = "fail"     -> SchedArg(S, S.now + c.arg, c.dev, "fail", 50, 0)
       [] c.call = "shutdown" -> Shutdown(S, c.dev, FALSE, 0)
@@ -539,6 +554,7 @@ Script(S, c) ==
       [] c.call = "adjust"   -> Adjust(S, c.dev, c.arg)
       [] c.call = "noise"    -> AddValue(S, c.dev, c.arg)
       [] c.call = "workorder" -> CreateOrder(S, c.dev, c.res)
+      [] c.call = "rewire"   -> Rewire(S, c.dev, c.ups)
       [] OTHER -> S
 
 (* the clock moves: uptime and utilisation of every processor follow *)
